@@ -296,39 +296,3 @@ Definition compile_prog_d (d:dialect) (start:nat) (p:prog) : gprog := {|
 (** fc *)
 Definition compile_prog (p:prog) : gprog := compile_prog_d DFc 0 p.
 
-(** tinyfo: the counter has been advanced by the parser (NewBinOpCall: one [_T] per [=]/[<>]; NewPipeCall: two per [|>]) *)
-Fixpoint tallocs (e:expr) : nat :=
-  let fix tl (es:list expr) : nat :=
-      match es with [] => 0 | e :: r => tallocs e + tl r end in
-  let fix ta (arms:list (string * option var * block)) : nat :=
-      match arms with [] => 0 | (_, _, b) :: r => tallocsb b + ta r end in
-  let fix ts (arms:list (string * block)) : nat :=
-      match arms with [] => 0 | (_, b) :: r => tallocsb b + ts r end in
-  match e with
-  | EInt _ | EStr _ | EBool _ | EUnit | EVar _ | EInterp _ => 0
-  | EBin _ a b => tallocs a + tallocs b
-  | EEq _ a b => 1 + tallocs a + tallocs b
-  | ENot a => tallocs a
-  | EIf c bt bf => tallocs c + tallocsb bt + tallocsb bf
-  | EIfOnly c bt => tallocs c + tallocsb bt
-  | ELam _ b => tallocsb b
-  | ECall _ _ _ args | EExt _ args | ETuple args | ERecord _ _ args | ESlice args => tl args
-  | EPipeVar a _ _ => 2 + tallocs a
-  | EPipeCall a _ args _ | EPipeExt a _ args _ => 2 + tallocs a + tl args
-  | EField a _ => tallocs a
-  | ECtor _ _ None => 0
-  | ECtor _ _ (Some a) => tallocs a
-  | EMatchU a _ arms def => tallocs a + ta arms + match def with Some b => tallocsb b | None => 0 end
-  | EMatchS a arms _ last => tallocs a + ts arms + tallocsb last
-  | EBlock b => tallocsb b
-  end
-with tallocsb (b:block) : nat :=
-  match b with
-  | BLet _ e b' | BDestr _ e b' | BDo e b' => tallocs e + tallocsb b'
-  | BRet e _ => tallocs e
-  end.
-
-Definition tiny_start (p:prog) : nat :=
-  fold_right (fun f acc => tallocsb (snd (snd f)) + acc) 0 (p_funs p) + tallocsb (p_main p).
-
-Definition compile_tiny (p:prog) : gprog := compile_prog_d DTiny (tiny_start p) p.
